@@ -309,6 +309,7 @@ type PathSample struct {
 	Observes  []string          `json:"observes,omitempty"`
 	Choices   map[string]int    `json:"choices,omitempty"`
 	Schedule  []string          `json:"schedule,omitempty"`
+	Ungated   int               `json:"ungated,omitempty"` // preemptions at points a native run cannot force
 	End       string            `json:"end"`
 }
 
@@ -562,7 +563,7 @@ func (x *explorer) merge(res *runResult) {
 		if r.nontriv > 0 {
 			rep.NonTrivial++
 		}
-		if res.sample != nil && len(rep.Samples) < x.e.cfg.SampleModels+3 {
+		if res.sample != nil && len(rep.Samples) < x.e.cfg.SampleModels+3 && (res.sample.Ungated == 0 || len(rep.Samples) < 2) {
 			rep.Samples = append(rep.Samples, *res.sample)
 		}
 	case "assume", "infeasible":
@@ -582,6 +583,7 @@ func (x *explorer) merge(res *runResult) {
 		}
 		v.Findings = res.in.findings()
 		v.Schedule = res.in.sch.schedLog
+		v.Ungated = res.in.sch.ungated
 		for i, c := range r.pc {
 			if i >= 40 {
 				break
@@ -677,6 +679,7 @@ func (e *Engine) execRun(w *worker, fn *ssa.Function, prefix []int64) *runResult
 	if out.end.kind == "done" || out.end.kind == "deadlock" {
 		smp := &PathSample{Decisions: len(r.trace), Kinds: string(r.kinds), Trace: r.trace, End: out.end.kind}
 		smp.Schedule = in.sch.schedLog
+		smp.Ungated = in.sch.ungated
 		smp.Choices = map[string]int{}
 		for _, c := range in.chooseLog {
 			smp.Choices[c.Name] = c.Val
